@@ -598,6 +598,8 @@ def render_arg(ctx, arg, flags, width):
         v = deref(val)
         if isinstance(v, SInt) and v.ty != "char":
             chars = render_int_decimal(ctx, v)
+        elif isinstance(v, Agg) and v.variant and not v.fields:
+            chars = [SInt(ord(c), "char") for c in v.variant]        # derived Debug of a field-less variant: its name
         else:
             raise Unsupported("Debug formatting of %r" % (v,))
     else:
